@@ -46,6 +46,7 @@ fn selftest(log: &mut Log) {
 /// Everything the public string-returning functions say about every registered type.
 pub fn dump(reg: &[TypeEntry], log: &mut Log) {
     for e in reg {
+        log.start(&e.id, &e.rust);
         log.emit(json!({
             "ev": "dump", "id": e.id, "rust": e.rust,
             "name": crate::guarded(e.name).map_err(|p| format!("panic: {p}")),
